@@ -78,7 +78,7 @@ func c01Spaces(c *explore.Ctx) []wordSpace {
 	}
 	bases := []string{"E", "CH", "CC", "SP", "ML", "HO"}
 	if c.Thorough() {
-		for _, b := range []string{"LCS", "LCM", "FL"} {
+		for _, b := range []string{"LCS", "LCM", "FL", "FL2"} {
 			add(b, "BIGC", 0, 3)
 			add(b, "ROLL", 0, 2)
 		}
@@ -101,7 +101,7 @@ func c01Spaces(c *explore.Ctx) []wordSpace {
 		}
 		add("CH", "BIGC", 1, 2)
 		add("CC", "BIGC", 0xffffffff, 2)
-		for _, b := range []string{"LCS", "LCM", "FL"} {
+		for _, b := range []string{"LCS", "LCM", "FL", "FL2"} {
 			add(b, "BIGC", 0, 2)
 		}
 	}
